@@ -8,7 +8,11 @@ mod kinds;
 mod model;
 mod pt;
 
+mod c01;
+mod c01x;
 mod c02;
+mod hist;
+mod hrun;
 
 use engine::Cfg;
 
@@ -45,6 +49,7 @@ fn main() {
         unsafe { std::env::set_var("OXIDD_STACK_SIZE", "16777216") };
     }
     let code = match prop.as_str() {
+        "C01" => c01::run(&cfg),
         "C02" => c02::run(&cfg),
         _ => {
             eprintln!("no check for {prop}");
